@@ -14,7 +14,7 @@ REASONS = [
  (r"^assert\|(DivisionByZero|RemainderByZero)", "divisor is usize::BITS (a non-zero constant)"),
  (r"^assert\|Overflow\(Shl\)", "1 << bit with bit < 64 (idx % 64, or single-word tracker used only for <= 64 operands)"),
  (r"expect\|usize", "next_char_boundary is only called with range_end < text.len(): a boundary exists within the next 4 bytes (guard: the searched offsets cover 1..len)"),
- (r"unwrap\|&str|unwrap\|String|unwrap\|T$", "first element of a sequence that is non-empty by construction (>= 1 node / operand), or NumCast of an f64 constant into a float type"),
+ (r"unwrap\|<-next|unwrap\|&str|unwrap\|String|unwrap\|T$", "first element of a sequence that is non-empty by construction (>= 1 node / operand), or NumCast of an f64 constant into a float type"),
  (r"unwrap\|\(usize,Operator\)", "inside take_while(is_some)"),
  (r"unwrap\|F$|unwrap\|I$", "f64 / small literal into a float or signed int type: always representable"),
  (r"unwrap\|Ordering", "partial_cmp on i64 / str is total"),
